@@ -503,6 +503,12 @@ class Walker:
             # free variables are implicit parameters, bound by the call (see calls.apply_repo)
             for nm in self.fi.free_vars():
                 st.env[nm] = fa[nm] if fa and nm in fa else P(nm)
+                sib = self.fi.parent.qualname + "." + nm
+                if not (fa and nm in fa) and sib in self.prog.funcs and self.prog.funcs[sib].parent is self.fi.parent:
+                    # a sibling function of the enclosing function (bound once, by its def)
+                    binds = [x for x in ast.walk(self.fi.parent.node) if (isinstance(x, ast.Name) and x.id == nm and isinstance(x.ctx, ast.Store)) or (isinstance(x, (ast.FunctionDef, ast.AsyncFunctionDef, ast.ClassDef)) and x.name == nm)]
+                    if len(binds) == 1:
+                        st.env[nm] = ("closure", sib, ())
         outs = self.block(self.fi.node.body, st)
         res = []
         for s, k, p in outs:
